@@ -317,7 +317,7 @@ def main(mod):
               assumptions=meta.get('assumptions', []), wall_s=round(wall, 2), violations=len(violations))
     evdir = os.environ.get('VERIF_EVIDENCE_DIR') or os.path.join(VERIF, 'evidence')
     os.makedirs(evdir, exist_ok=True)
-    json.dump(ev, open(os.path.join(evdir, pid + '.json'), 'w'), indent=1)
+    json.dump(ev, open(os.path.join(evdir, pid + ('.partial.json' if a.only else '.json')), 'w'), indent=1)
     print('[%s] %d jobs, %d obligations, %d solver queries (%d unsat, %d sat, %d unknown), solver %.1fs, wall %.1fs' %
           (pid, len(jobs), nobl, stats.get('solver_calls', 0), stats.get('unsat', 0), stats.get('sat', 0), stats.get('unknown', 0), stats.get('solver_time', 0.0), wall))
     for k, f in sorted(matched.items()):
